@@ -246,8 +246,16 @@ func (w *EvalRuleCondition) Do(ctx *Context, loc *Location) {
 
 	for _, bs := range qr.Bss {
 		for _, action := range w.Parent.Rule.Actions {
+			// A rule's actions can run concurrently, and action
+			// execution writes to its bindings (see
+			// maybeCopyEvent), so each execution gets its own
+			// map.
+			own := make(Bindings, len(bs))
+			for k, v := range bs {
+				own[k] = v
+			}
 			child := &ExecRuleAction{
-				Bindings: bs,
+				Bindings: own,
 				Act:      Action(action),
 				Parent:   w,
 			}
